@@ -42,7 +42,7 @@ CLAIMS = {
           "", "Lean 4 proof + exhaustive differential table", "§0.1, §5 C12"),
  "C13": C("Lean: path-state model of the file resource: three stamping routes agree, checker iff-theorems, reader left rewound, write creates/truncates/refuses directories, directory hash injective on name lists. " + CORR + "Real temporary files/directories with explicit mtimes (incl. same-size same-mtime rewrites). Defect F2 found and repaired.",
           "the OS (metadata, read_dir, stale handles) and SHA-256 (assumed injective) are modelled, not verified.", "Lean 4 proof over a path-state model + differential correspondence on a real file system", "§0.1, §5 C13"),
- "C14": C("Lean: refinement of TypeToAnyMap + global map + MapWriter to per-type key->value maps: read-your-writes, isolation between key/resource types, get_or_set_default spec, checker iff, stamping routes agree. " + CORR + "Independent per-type slot-map oracle.",
+ "C14": C("Lean: refinement of TypeToAnyMap + global map + MapWriter to per-type key->value maps: read-your-writes, isolation between key/resource types, get_or_set_default spec, checker iff, stamping routes agree; the object flavour (type-erased keys/values, MapKeyObjToObj) refines a map keyed by (concrete type, value): aliasing iff eq_any, checker iff, isolation under any interleaving (C14_obj_*). " + CORR + "Independent per-type slot-map oracle, incl. zero-sized key and value types.",
           "HashMap modelled as duplicate-free association list (MapRes.WF).", "Lean 4 refinement proof + differential correspondence", "§0.1, §5 C14"),
  "C15": C("Lean: eq_any iff same (type, value); the store shares a node iff names are equal. " + CORR + "Five task types with identical Debug/Hash (newtypes, Box/Rc/Arc) and two resource types; outputs, executions, node counts, key equality compared.",
           "whether the Rust code keys on TypeId is established by the correspondence, the theorems are about the model.", "Lean 4 proof (thin) + differential correspondence", "§0.1, §5 C15"),
